@@ -14,12 +14,22 @@ private def oneLine (s : String) (n : Nat) : String :=
   let s := (s.splitOn " ").filter (· ≠ "") |> " ".intercalate
   if s.length > n then (s.take n).toString ++ " …" else s
 
+/-- auto-generated companions of definitions (equation lemmas etc.) are not obligations -/
+private def isGenerated (env : Environment) (n : Name) : Bool :=
+  match n with
+  | .str p s =>
+    env.contains p &&
+      ((s.startsWith "eq_" && (s.drop 3).all Char.isDigit) ||
+       ["eq_def", "eq_unfold", "congr_simp", "inj", "injEq", "sizeOf_spec", "induct",
+        "induct_unfolding", "fun_cases", "fun_cases_unfolding"].contains s)
+  | _ => false
+
 elab "#audit_ns " ns:ident : command => do
   let env ← getEnv
   let nsName := ns.getId
   let mut names : Array Name := #[]
   for (n, ci) in env.constants.toList do
-    if nsName.isPrefixOf n && !n.isInternal && !(env.isProjectionFn n) then
+    if nsName.isPrefixOf n && !n.isInternal && !(env.isProjectionFn n) && !(isGenerated env n) then
       match ci with
       | .thmInfo _ => names := names.push n
       | _ => pure ()
